@@ -789,6 +789,15 @@ def run(ctx):
     r4_local_atomic(ctx)
     r5_temp_invisible(ctx)
     r7_local_clean(ctx)
+    from . import shared as _sh3
+
+    _sh3.run_flags_are_per_run(ctx, 'C03.R1', ('snapshot',))
+    # a transfer that keeps failing ends in an exception, never in a normal return: the retry layer of every adapter is the
+    # bounded decorator that re-raises when it gives up
+    from ..report import Relabel as _RL3
+    from .c12 import r1_bounded_retry
+
+    r1_bounded_retry(_RL3(ctx, 'C03.R3'))
     # a failed command leaves no belief behind that a later command acts on: "this chunk is stored" is decided by asking the backend
     from .c02 import r8_skip_upload_only_on_backend_answer as _sk
 
